@@ -417,13 +417,28 @@ func RunSecScenario(sc *Scenario) (vd *Verdict) {
 		case "req":
 			// op.N indexes the route table (modulo), op.S is the token kind, op.DS the dataset for path parameters
 			rt := routes[op.N%len(routes)]
+			if want, _ := op.M["route"].(string); want != "" {
+				for _, x := range routes {
+					if x.Method+" "+x.Path == want {
+						rt = x
+					}
+				}
+			}
 			path := fillPath(rt.Path, op.DS)
 			tok, valid, adminRole, subject := r.token(op.S)
 			hdr := map[string]string{}
 			if tok != "" {
 				hdr["Authorization"] = "Bearer " + tok
 			}
-			code, _ := r.H.Do(rt.Method, path, hdr, bodyFor(rt.Method, rt.Path))
+			sent := path
+			if op.Limit == 1 && op.DS != "" && strings.Contains(rt.Path, ":d") {
+				// the same resource spelt with a percent-escaped character in the dataset name: what is granted or
+				// denied is the resource, not its spelling
+				last := op.DS[len(op.DS)-1]
+				sent = fillPath(rt.Path, op.DS[:len(op.DS)-1]+fmt.Sprintf("%%%02X", last))
+				r.Stats["requests_escaped_path"]++
+			}
+			code, _ := r.H.Do(rt.Method, sent, hdr, bodyFor(rt.Method, rt.Path))
 			r.Stats["requests"]++
 			served := code != 401 && code != 403
 			if served {
